@@ -147,6 +147,8 @@ class Ctx:
                 for rule in rewrites.RULES[g]:
                     for m in rule.get('markers', ()):
                         f.write('#ifndef %s\n#define %s\n#endif\n' % (m, m))
+                    for m, d in rule.get('default_defs', {}).items():
+                        f.write('#ifndef %s\n%s\n#endif\n' % (m, d))
 
     def inc_flags(self):
         return ['-I' + os.path.join(self.mirror, 'include'), '-I' + os.path.join(self.mirror, 'src'),
